@@ -15,6 +15,8 @@
 import Csvq.Model.Proto
 import Csvq.Model.Analytic
 import Csvq.Model.AnalyticFull
+import Csvq.Model.AnalyticFlags
+import Csvq.Model.FormatFloat
 namespace Csvq.Drive.C17
 open Csvq Csvq.Proto Csvq.Analytic
 
@@ -110,8 +112,15 @@ def exec (fn : String) (a1 : Option Int) (a2 : Option Val) (ign : Bool) (w : Win
   | "max" => some ((aggOverP prof (aggMax ∘ dist) w p).map fun r => (r.1, Res.v r.2))
   | "median" => some ((aggOverP prof (aggMedian ∘ dist) w p).map fun r => (r.1, Res.v r.2))
   | "countd" => some ((aggOverP prof (aggCount ∘ dist) w p).map fun r => (r.1, Res.v r.2))
+  -- VAR / VARP / STDEV / STDEVP: C04's exact model (Model/Aggregate.lean) over the frame (Csvq.C17.var_over_frame_spec)
+  | "var" => some ((varOver Flags.loose ign false prof w p).map fun r => (r.1, Res.v (resVal r.2)))
+  | "varp" => some ((varOver Flags.loose ign true prof w p).map fun r => (r.1, Res.v (resVal r.2)))
+  | "stdev" => some ((stdevOver Flags.loose ign false prof w p).map fun r => (r.1, Res.v (resVal r.2)))
+  | "stdevp" => some ((stdevOver Flags.loose ign true prof w p).map fun r => (r.1, Res.v (resVal r.2)))
   | _ => none
 where
+  resVal : Agg.Res → Val := fun r => match r with
+    | .null => .null | .int i => .int i | .flt f => .flt f | .str s => .str s | .cell c => c.raw
   prof : Nat → Profile := fun i => profileOf (cells i)
   dist : List Profile → List Profile := fun l => if ign then distinctProfiles l else l
 
@@ -199,9 +208,98 @@ def c17glistagg (keepNull : Bool) (args : List String) : String :=
     | _, _, _ => bad
   | _ => bad
 
+/-! ### the session flags (Model/AnalyticFlags.lean)
+
+   op line:  c17.fl:<fn> <strict> <distinct> <a1> <frame> <nsort> <npart> <row>*
+     <fn>      COUNT SUM AVG MIN MAX MEDIAN STDEV STDEVP VAR VARP (C04's aggregates over the frame), listagg (separator `|`),
+               jsonagg, cells (the user-defined aggregate of the harness), or a function of `exec` (rank, dense_rank, …)
+     <strict>  1 = the session runs under --strict-equal
+     <row>     id partprofile{npart} sortcell{nsort} argprofile      in the order of the (sorted) view
+   The model computes the partition keys (`partKeyF`), the peers (`peersF`) and DISTINCT (`distinguishF`) of the mode itself. -/
+
+partial def parseFRows (npart nsort : Nat) : List String → Option (List FRow)
+  | [] => some []
+  | idt :: rest => do
+    let id ← idt.toNat?
+    let part ← (rest.take npart).mapM parseProfile
+    if part.length ≠ npart then none
+    let rest := rest.drop npart
+    let toks := rest.take nsort
+    if toks.length ≠ nsort then none
+    let raws ← toks.mapM fun t => parseProfile ((t.splitOn "~").headD "")
+    let cells ← toks.mapM parseSortCell
+    match rest.drop nsort with
+    | [] => none
+    | a :: more => do
+      let arg ← parseProfile a
+      let tl ← parseFRows npart nsort more
+      pure (⟨id, part, raws, cells, arg⟩ :: tl)
+
+def flKeyText : KeyText := { itext := decText, ftext := FF.fmtF }
+
+def showAggRes : Agg.Res → String
+  | .null => "N"
+  | .int i => "I" ++ toString i
+  | .flt f => "F" ++ showF f
+  | .str s => "S" ++ hex s
+  | .cell p => showVal p.raw
+
+/-- the text the harness's user-defined aggregate builds: `|` and STRING(value) (`N` for NULL) for every value -/
+def udfText (l : List Profile) : Bytes :=
+  l.flatMap fun p => 124 :: (match p.raw with
+    | .null => [78]
+    | .str s => s
+    | .int i => decText i
+    | .flt f => FF.fmtF f
+    | .bool b => if b then sTrue else sFalse
+    | .tern t => (match t with | .T => [84, 82, 85, 69] | .F => [70, 65, 76, 83, 69] | .U => [85, 78, 75, 78, 79, 87, 78])
+    | .dt _ => [])
+
+def execF (fn : String) (fl : Flags) (distinct : Bool) (a1 : Option Int) (w : Window)
+    (eqv : Nat → Nat → Bool) (prof : Nat → Profile) (p : List Nat) : Option (List (Nat × String)) :=
+  match fn with
+  | "listagg" => some ((listAggOverF fl distinct prof (Agg.listAgg flKeyText [124]) p).map fun r => (r.1, showAggRes r.2))
+  | "jsonagg" => some ((listAggOverF fl distinct prof (fun l => l) p).map fun r =>
+      (r.1, "[" ++ String.intercalate ";" (r.2.map fun c => showVal c.raw) ++ "]"))
+  | "cells" => some ((aggOverF fl distinct prof (fun _ l => udfText l) w p).map fun r => (r.1, "S" ++ hex r.2))
+  | _ =>
+    match builtinAgg flKeyText [124] fn with
+    | some F => some ((aggOverF fl distinct prof (fun _ l => F l) w p).map fun r => (r.1, showAggRes r.2))
+    | none => (exec fn a1 none false w eqv (fun i => (prof i).raw) p).map fun l => l.map fun r => (r.1, showRes r.2)
+
+def c17fl (fn : String) (args : List String) : String :=
+  let bad := "bad-op"
+  match args with
+  | st :: di :: a1 :: fr :: ns :: np :: rest =>
+    match parseBool st, parseBool di, parseOpt String.toInt? a1, parseWindow fr, ns.toNat?, np.toNat? with
+    | some strict, some distinct, some a1, some w, some nsort, some npart =>
+      match parseFRows npart nsort rest with
+      | none => bad
+      | some view =>
+        let fl : Flags := ⟨strict⟩
+        let arr := view.toArray
+        let prof : Nat → Profile := fun i => (arr[i]?.map FRow.arg).getD (profileOf .null)
+        let hasOrder := decide (0 < nsort)
+        let eqv : Nat → Nat → Bool := fun i j =>
+          match arr[i]?, arr[j]? with
+          | some a, some b => hasOrder && rowPeersF fl a b
+          | _, _ => false
+        let keys := view.map (partKeyF fl)
+        match (partitionsOf keys).mapM (fun part => execF fn fl distinct a1 w eqv prof part.2) with
+        | none => "E"
+        | some _ =>
+          let col := analyzeF fl (fun p => (execF fn fl distinct a1 w eqv prof p).getD []) view
+          let out : Array String := Array.replicate view.length "?"
+          let out := (view.zip col).foldl (fun (o : Array String) rc =>
+            o.setIfInBounds rc.1.id (rc.2.getD "?")) out
+          if out.isEmpty then "-" else String.intercalate "," out.toList
+    | _, _, _, _, _, _ => bad
+  | _ => bad
+
 def c17 (fn : String) (args : List String) : String :=
   let bad := "bad-op"
-  if fn.startsWith "full:" then c17full (fn.drop 5).toString args
+  if fn.startsWith "fl:" then c17fl (fn.drop 3).toString args
+  else if fn.startsWith "full:" then c17full (fn.drop 5).toString args
   else if fn = "glistagg" then c17glistagg false args
   else if fn = "gjsonagg" then c17glistagg true args
   else
